@@ -470,9 +470,13 @@ class ScaledInteger(HasUnit, DataType):
     def import_value(self, value):
         """returns a python object from serialisation"""
         try:
-            return self.scale * int(value)
+            value + 0.0  # do not accept strings here
+            ivalue = int(value)
         except Exception:
             raise WrongTypeError(f'can not import {shortrepr(value)} to scaled') from None
+        if ivalue != value:
+            raise WrongTypeError(f'{shortrepr(value)} should be an int')
+        return self.scale * ivalue
 
     def format_value(self, value, unit=True):
         if unit is True:
